@@ -198,6 +198,8 @@ def call_builtin(ex, obj, args, kwargs, st):
                 return [(st, mk_tuple([]))]
             raise Unsupported('list() without element type')
         a = args[0]
+        if isinstance(a.ty, TFunc) and isinstance(a.py.obj, tuple) and a.py.obj[0] == 'dictview' and a.py.obj[1] == 'values':
+            a = odict_values_seq(ex, a.py.obj[2], st.heap)
         if isinstance(a.ty, TFunc) and isinstance(a.py.obj, tuple) and a.py.obj[0] == 'reversed':
             src = ex.S.to_seq(a.py.obj[1], st.heap)
             n, arr = src.t
@@ -395,7 +397,33 @@ def str_split(ex, recv, name, args, st):
     return [(s2, SV(TList(STR), [r]))]
 
 
+def odict_values_seq(ex, d, heap):
+    """the values of an ordered dict, in insertion order, as an immutable sequence"""
+    ty = d.ty
+    if not ty.ordered:
+        raise Unsupported('order of a plain dict')
+    k = z3.Int(fresh_name('vk'))
+    kat = z3.Select(heap.get(heap.dict_kat_key(ty.k))[0], d.term)
+    val = z3.Select(heap.get(heap.dict_val_keys(ty.k, ty.v)[0])[0], d.term)
+    arr = z3.Lambda([k], z3.Select(val, z3.Select(kat, k)))
+    return SV(TSeq(ty.v), [heap.odict_klen(d.term), arr])
+
+
 def iter_descriptor(ex, v, st):
+    if isinstance(v.ty, TFunc) and isinstance(v.py.obj, tuple) and v.py.obj[0] == 'dictview' and v.py.obj[1] == 'items':
+        d = v.py.obj[2]
+        if not d.ty.ordered:
+            raise Unsupported('order of a plain dict')
+        n = st.heap.odict_klen(d.term)
+        def get(kk, h, d=d):
+            key = SV(d.ty.k, [h.odict_kat(d.ty.k, d.term, kk)])
+            return mk_tuple([key, h.dict_get(d.ty.k, d.ty.v, d.term, key.term)])
+        kk_ = z3.Int(fresh_name('ik'))
+        keys = SV(TSeq(d.ty.k), [n, z3.Lambda([kk_], st.heap.odict_kat(d.ty.k, d.term, kk_))])
+        return ('seq', n, get, keys)
+    if isinstance(v.ty, TFunc) and isinstance(v.py.obj, tuple) and v.py.obj[0] == 'dictview' and v.py.obj[1] == 'values':
+        seq = odict_values_seq(ex, v.py.obj[2], st.heap)
+        return ('seq', seq.t[0], lambda kk, h, seq=seq: SV(seq.ty.elem, [z3.Select(seq.t[1], kk)]), seq)
     if isinstance(v.ty, TSet):
         # iteration over a set: some enumeration e[0..n) of its elements, each exactly once (order unspecified)
         ks = v.ty.k.comps()[0]
